@@ -1333,6 +1333,9 @@ class ScalarResult(FilterResult[_R]):
         See :meth:`_engine.Result.unique` for usage details.
 
         """
+        # reset memoized row getters, as the generative Result.unique() does,
+        # so the filter also applies when fetching has already begun
+        self._generate()
         self._unique_filter_state = (set(), strategy)
         return self
 
@@ -1615,6 +1618,9 @@ class MappingResult(_WithKeys, FilterResult[RowMapping]):
         See :meth:`_engine.Result.unique` for usage details.
 
         """
+        # reset memoized row getters, as the generative Result.unique() does,
+        # so the filter also applies when fetching has already begun
+        self._generate()
         self._unique_filter_state = (set(), strategy)
         return self
 
